@@ -42,6 +42,19 @@ elif w.get("op") == "ensemble-units":
                     bad.append(f"ConformerEnsemble.{entry}_{fmt}: text declared in {u}: {e.coords[0][0][0]} {u} read as {r.coords[0][0][0]:.6g} Angstrom, expected {e.coords[0][0][0] * APU[u]:.6g}")
                 if r.name != "renamed":
                     bad.append(f"ConformerEnsemble.{entry}_{fmt}(name='renamed') returned an ensemble named {r.name!r}")
+elif w.get("op") == "xyz-vocabulary":
+    for el in ml.Element:
+        if el == ml.Element.Unknown:
+            continue
+        g = ml.CartesianGeometry(n_atoms=1)
+        g.atoms[0].element = el
+        try:
+            r = ml.CartesianGeometry.loads_xyz(g.dumps_xyz())
+        except BaseException as ex:
+            bad.append(f"element {el.name}: molli rejects its own xyz output ({type(ex).__name__})")
+            continue
+        if r.atoms[0].element != el or r.atoms[0].atype != ml.AtomType.Regular:
+            bad.append(f"element {el.name} written to xyz reads back as {r.atoms[0].element.name} / {r.atoms[0].atype.name}")
 elif w.get("op") == "xyz-multi":
     frames = [("O", "H", "H"), ("S", "H", "H"), ("H", "O", "H"), ("*", "C", "O"), ("C", "O", "O")]
     txt = ""
@@ -90,15 +103,19 @@ else:
             continue
         if r.n_atoms != src.n_atoms or [a.element for a in r.atoms] != [a.element for a in src.atoms] or not np.allclose(r.coords, src.coords, atol=1e-6):
             bad.append(f"{cls.__name__}: xyz round trip changed atoms/coordinates")
-    e = ml.ConformerEnsemble(m, n_conformers=2)
-    want = np.stack([m.coords, m.coords + 123.456789])          # not representable in single precision to 1e-6
-    e.coords = want
-    try:
-        r = ml.ConformerEnsemble.loads_xyz(e.dumps_xyz())
-        if r.coords.shape != want.shape or not np.allclose(r.coords, want, atol=1e-6, rtol=0):
-            bad.append("ensemble xyz round trip changed frames")
-    except BaseException as ex:
-        bad.append(f"ConformerEnsemble: molli rejects its own xyz output: {type(ex).__name__}: {str(ex)[:80]}")
+    for nc in (2, 1, 3):
+        e = ml.ConformerEnsemble(m, n_conformers=nc)
+        want = np.stack([m.coords + 123.456789 * c for c in range(nc)])          # not representable in single precision to 1e-6
+        e.coords = want
+        from io import StringIO
+        for entry in ("loads", "load"):
+            try:
+                txt = e.dumps_xyz()
+                r = ml.ConformerEnsemble.loads_xyz(txt) if entry == "loads" else ml.ConformerEnsemble.load_xyz(StringIO(txt))
+                if r.coords.shape != want.shape or not np.allclose(r.coords, want, atol=1e-6, rtol=0):
+                    bad.append(f"ensemble xyz round trip ({nc} frames, {entry}_xyz) changed frames")
+            except BaseException as ex:
+                bad.append(f"ConformerEnsemble ({nc} frames, {entry}_xyz): molli rejects its own xyz output: {type(ex).__name__}: {str(ex)[:80]}")
 if bad:
     print("REPRODUCED:", "; ".join(bad[:3]))
     sys.exit(0)
